@@ -97,6 +97,11 @@ LinDefTaps(fp)  == UNION {{RFloor(fp[i][1]), RCeil(fp[i][1])} : i \in DOMAIN fp}
 LinDef(fp)      == LET T == {j \in LinDefTaps(fp) : LinDefCoef(fp, j) # RZero}
                    IN [j \in T |-> Const(LinDefCoef(fp, j))]
 FAllConst(fp)   == \A i \in DOMAIN fp : fp[i][2].k = "c"
+\* linearize() ends with the class constructor: when the lowest denominator tap is not 0 any more (tap 0 cancelled)
+\* both tap functions are shifted (LinearFilter.__init__)
+ShiftTaps(t, m) == [k \in {j - m : j \in DOMAIN t} |-> t[k + m]]
+LinShift(nt, dt) == IF DOMAIN dt = {} \/ PMinKey(DOMAIN dt) = 0 THEN [n |-> nt, d |-> dt]
+                    ELSE [n |-> ShiftTaps(nt, PMinKey(DOMAIN dt)), d |-> ShiftTaps(dt, PMinKey(DOMAIN dt))]
 
 ---------------------------------------------------------------------------
 (* A. COMB FILTERS                                                         *)
@@ -428,7 +433,8 @@ Result(c) ==
     [] c.kind = "cast"   -> [v |-> CastOp(SMake(c.n, c.d), c.den)]
     [] c.kind = "zpow"   -> (LET f == ZPow(c.k) IN [n |-> f.n, d |-> f.d, causal |-> \A k \in DOMAIN f.n : k >= 0,
                                                     numlist |-> DenseList(f.n), back |-> SOpDiv(f, ZPow(c.k))])
-    [] c.kind = "lin"    -> [n |-> LinOp(c.n), d |-> LinOp(c.d), runnable |-> FIsInt(c.n) /\ FIsInt(c.d)]
+    [] c.kind = "lin"    -> (LET r == LinShift(LinOp(c.n), LinOp(c.d))
+                             IN [n |-> r.n, d |-> r.d, runnable |-> FIsInt(c.n) /\ FIsInt(c.d)])
     [] c.kind = "design" -> [shape |-> DesignShape(c.fam, c.name, c.S),
                              nout  |-> DesignRunLen(c.inlen, c.lens)]
     [] c.kind = "names"  -> [names |-> StrategyNames(c.fam), default |-> StrategyDefault(c.fam)]
@@ -530,7 +536,8 @@ ZfLaws ==
                      /\ res.n = Mono(-case.k, ROne) /\ res.d = PConst(ROne)
                      /\ res.back = FV(PConst(ROne), PConst(ROne))                    \* z**k / z**k = 1
 LinLaw ==
-  Done("lin") /\ FAllConst(case.n) /\ FAllConst(case.d) => res.n = LinDef(case.n) /\ res.d = LinDef(case.d)
+  Done("lin") /\ FAllConst(case.n) /\ FAllConst(case.d) =>
+     LET r == LinShift(LinDef(case.n), LinDef(case.d)) IN res.n = r.n /\ res.d = r.d /\ (DOMAIN res.d # {} => PMinKey(DOMAIN res.d) = 0)
 \* D
 DesignLaw ==
   Done("design") => LET s == res.shape
